@@ -33,6 +33,7 @@ TRUSTED = [
     "set() iteration order (source of a merged output) is not modelled: compared as a set of comma-separated parts",
     "Feature.__init__ / feature_from_line (C07/C08 models) build the input objects on both sides from the same GFF line",
 ]
+TRANSLATION_TIE = "criteria"        # vcheck: harness/gentie.py (merge_criteria.py translated to CritExpr data, proved equal to the model)
 LEANCHECKER_MODULES = ["GffProofs.Props.C16"]
 
 # The Lean model has both copy steps: the current one (TypeError on an object that carries `children`, defect D9)
